@@ -294,7 +294,13 @@ pub fn source(p: &Prog) -> String {
     ));
     // the other record types are declared only where they are used (a program without them
     // reads as before)
-    let used: Vec<T> = p.var_tys.iter().copied().chain(p.fns.iter().flat_map(|f| lit_types(&E::Block(f.body.clone())))).collect();
+    let mut used: Vec<T> = vec![];
+    for f in &p.fns {
+        used.extend(f.params.iter().map(|x| p.var_tys[*x]));
+        let body = E::Block(f.body.clone());
+        used.extend(lit_types(&body));
+        used.extend(let_types(p, &body));
+    }
     for (t, name, n) in RECORDS.iter().skip(1) {
         if used.contains(t) {
             let generic = matches!(t, T::G | T::H);
@@ -352,6 +358,31 @@ fn atomic(e: &E) -> bool {
         E::Host(f, _) => !is_method(*f),
         _ => false,
     }
+}
+
+/// the types of the variables an expression declares with `let`
+fn let_types(p: &Prog, e: &E) -> Vec<T> {
+    fn blk(p: &Prog, b: &Blk, out: &mut Vec<T>) {
+        for s in &b.stmts {
+            if let S::Let(x, _) = s {
+                out.push(p.var_tys[*x]);
+            }
+        }
+    }
+    let mut out = vec![];
+    match e {
+        E::Block(b) | E::If1(_, b) | E::While(_, b) | E::For(_, _, b) => blk(p, b, &mut out),
+        E::Ite(_, a, b) => {
+            blk(p, a, &mut out);
+            blk(p, b, &mut out);
+        }
+        E::Match(_, _, arms) => arms.iter().for_each(|a| blk(p, &a.body, &mut out)),
+        _ => {}
+    }
+    for c in children(e) {
+        out.extend(let_types(p, c));
+    }
+    out
 }
 
 /// the record types of the literals in an expression
